@@ -47,7 +47,7 @@ class C01(Prop):
     explanation = ('Bounded tier (labelled bounded, never counted as proved): for every set of <= 4 distinct cliques of size <= 3 on <= 4 attributes '
                    '(cyclic, disconnected, nested, attributes in no clique; attribute order inside cliques, list order, duplicates and the domain order are seeded), '
                    'attribute sizes 1..3, and for cycles, chorded cycles, wheels of 3-cliques, ladders, trees and seeded clique sets on 5-6 attributes (96 + 48 cases in quick, 1500 + 160 in thorough), the real GraphicalModel(domain, cliques, total, elimination_order) is built for elimination orders None, int (randomised greedy, '
-                   'np.random seeded from the case) and explicit permutations (a seeded sample in quick, every permutation in thorough and in every 3rd quick case); '
+                   'np.random seeded from the case) and explicit permutations (a seeded sample in quick, every permutation in thorough and in every 4th quick case); '
                    'log-potentials are given on model.cliques (finite / with -inf cells and slices / magnitudes 1, 50, 2000; totals 0.5, 1, 10, 1e3). '
                    'belief_propagation(potentials) must return for every model clique the marginal of the brute-force joint exp(sum potentials) normalised to total '
                    '(compared by attribute name, rtol 1e-7 + 1e-9*total), sum to total, be non-negative and finite, leave the potentials untouched, return the brute-force '
@@ -62,7 +62,7 @@ class C01(Prop):
                    'float comparison with rtol 1e-7 and atol 1e-9*total; cells below that are compared absolutely only',
                    'potentials are Factors whose axis order equals the clique key of model.cliques',
                    'the int (randomised) elimination mode is explored for the seeds drawn, not for all random streams']
-    quick_budget_s = 80
+    quick_budget_s = 60
     thorough_budget_s = 1500
     exhaustive = {'quick': False, 'thorough': False}
 
@@ -118,7 +118,7 @@ class C01(Prop):
             attrs = list(X.NAMES[:n])
             for cliques in X.all_clique_sets(attrs, 3, 4, 0):
                 r, c = base(attrs, cliques, k)
-                allp = (not quick) or k % 3 == 0 or n <= 3
+                allp = (not quick) or k % 4 == 0 or n <= 3
                 c['orders'] = orders(r, c['attrs'], allp, 4)
                 c['sched'] = dict(mode='sample', k=5, on=2) if quick else dict(mode='all', cap=400, on=4)
                 small.append(c)
